@@ -27,7 +27,7 @@ from vf.props import c05
 
 ID = 'C10'
 LEVEL = 'fault_enumeration'
-ROLES = ['forward', 'forward-pooled', 'tunnel-pooled', 'tunnel', 'web', 'static', 'reverse', 'reverse-keepalive', 'nonutf8-target', 'close-hook-raises', 'bad-request', 'not-found', 'auth-failed', 'tls-handshake-fails']
+ROLES = ['forward', 'forward-pp-pooled', 'tunnel-pp', 'forward-pooled', 'tunnel-pooled', 'tunnel', 'web', 'static', 'reverse', 'reverse-keepalive', 'nonutf8-target', 'close-hook-raises', 'bad-request', 'not-found', 'auth-failed', 'tls-handshake-fails']
 MODES = ['local', 'remote', 'threaded']
 RULE = ('enumeration: for each (role, mode) a fault-free dry run counts the proxy socket calls and the peer actions of the '
         'connection; every (call ordinal x errno), (selector register/modify ordinal x {ENOMEM, ENOSPC}), (action index x peer fault), '
@@ -55,8 +55,8 @@ def tls_files() -> Tuple[str, str]:
     return _F[key][0], _F[key][1]
 
 
-def flags_for(mode: str, auth: bool, tls: bool = False, pool: bool = False) -> Any:
-    key = (mode, auth, tls, pool, os.getpid())
+def flags_for(mode: str, auth: bool, tls: bool = False, pool: bool = False, pp: bool = False) -> Any:
+    key = (mode, auth, tls, pool, pp, os.getpid())
     if key not in _F:
         from vf.props import c04, c07
         c05.flags()       # makes sure the plugin classes exist
@@ -68,6 +68,8 @@ def flags_for(mode: str, auth: bool, tls: bool = False, pool: bool = False) -> A
             opts['basic_auth'] = 'user:pass'
         if pool:
             argv += ['--enable-conn-pool']      # upstream connections are acquired from / released to the worker's pool
+        if pp:
+            argv += ['--enable-proxy-protocol']      # every connection then opens with a HAProxy v1 line
         if tls:
             k_, c_ = tls_files()
             argv += ['--key-file', k_, '--cert-file', c_]
@@ -79,7 +81,12 @@ def conversation(role: str, i: int = 0) -> Dict[str, Any]:
     if role in ('forward', 'tunnel', 'web', 'reverse'):
         return c05.conversation(role, 'canary')
     if role.endswith('-pooled'):
-        return c05.conversation(role[:-7], 'canary')
+        return conversation(role[:-7], i)
+    if role.endswith('-pp'):
+        # behind --enable-proxy-protocol: the connection opens with the address-less form of the v1 line
+        conv = dict(c05.conversation(role[:-3], 'canary'))
+        conv['requests'] = [b'PROXY UNKNOWN\r\n' + conv['requests'][0]] + list(conv['requests'][1:])
+        return conv
     if role == 'reverse-keepalive':
         one = c05.conversation('reverse', 'canary')['requests'][0]
         return {'requests': [one, one.replace(b'/ra/canary', b'/rb/second'), one], 'tunnel': None}
@@ -112,7 +119,7 @@ def fd_count() -> int:
 def run_case(c: Dict[str, Any], dry: bool = False) -> Dict[str, Any]:
     mode = c['mode']
     roles = c['roles']      # one or many consecutive connections
-    flags = flags_for(mode, 'auth-failed' in roles, 'tls-handshake-fails' in roles, any(r.endswith('-pooled') for r in roles))
+    flags = flags_for(mode, 'auth-failed' in roles, 'tls-handshake-fails' in roles, any(r.endswith('-pooled') for r in roles), any('-pp' in r for r in roles))
     K.CLOCK.reset()
     gc.collect()
     base_fds = fd_count()
@@ -340,6 +347,8 @@ def shards(tier: str) -> List[Dict[str, Any]]:
     for mode in MODES:
         out.append({'name': 'repeat-%s' % mode, 'kind': 'repeat', 'mode': mode, 'n': 25 if q else 200})
         out.append({'name': 'repeat-failed-setup-%s' % mode, 'kind': 'repeat', 'mode': mode, 'n': 8 if q else 60, 'only': 'tls-handshake-fails'})
+        if mode != 'threaded':
+            out.append({'name': 'repeat-proxy-protocol-%s' % mode, 'kind': 'repeat', 'mode': mode, 'n': 8 if q else 60, 'only': 'forward-pp-pooled'})
     for i in range(3 if q else 9):
         out.append({'name': 'random-%d' % i, 'kind': 'random', 'examples': 250 if q else 5000})
     return out
@@ -366,7 +375,7 @@ def run_shard(spec: Dict[str, Any], seed: int, acc: Any) -> None:
             for k_ in range(nsel):
                 for e in ('ENOMEM', 'ENOSPC'):
                     cases.append(dict(base, fault={'type': 'selector', 'k': k_, 'errno': e}))
-            if spec['role'] in ('forward', 'forward-pooled', 'tunnel-pooled', 'tunnel', 'reverse', 'reverse-keepalive', 'nonutf8-target', 'close-hook-raises'):
+            if spec['role'] in ('forward', 'forward-pp-pooled', 'tunnel-pp', 'forward-pooled', 'tunnel-pooled', 'tunnel', 'reverse', 'reverse-keepalive', 'nonutf8-target', 'close-hook-raises'):
                 for cf in c05.CONNECT_FAULTS:
                     cases.append(dict(base, fault={'type': 'connect', 'what': cf}))
             cases.append(dict(base, fault={'type': 'idle'}))
@@ -384,7 +393,7 @@ def run_shard(spec: Dict[str, Any], seed: int, acc: Any) -> None:
                                         % (spec['mode'], spec['role'], ncalls, len(c05.ERRNOS), nsel, nacts, len(c05.PEER_FAULTS)))
             return
         if spec['kind'] == 'repeat':
-            roles = [r for r in ROLES if r not in ('auth-failed', 'tls-handshake-fails') and not (spec['mode'] == 'threaded' and (r == 'close-hook-raises' or r.endswith('-pooled')))]
+            roles = [r for r in ROLES if r not in ('auth-failed', 'tls-handshake-fails') and '-pp' not in r and not (spec['mode'] == 'threaded' and (r == 'close-hook-raises' or r.endswith('-pooled')))]
             seq = [roles[(i * 5 + i // 7) % len(roles)] for i in range(spec['n'])]
             if spec.get('only'):
                 seq = [spec['only']] * spec['n']
@@ -399,7 +408,7 @@ def run_shard(spec: Dict[str, Any], seed: int, acc: Any) -> None:
         @st.composite
         def strat(draw: Any) -> Dict[str, Any]:
             n = draw(st.integers(1, 4))
-            roles = [draw(st.sampled_from([r for r in ROLES if r not in ('auth-failed', 'close-hook-raises', 'tls-handshake-fails')])) for _ in range(n)]
+            roles = [draw(st.sampled_from([r for r in ROLES if r not in ('auth-failed', 'close-hook-raises', 'tls-handshake-fails') and '-pp' not in r])) for _ in range(n)]
             ft = draw(st.sampled_from(['errno', 'errno', 'peer', 'connect', 'idle', 'none', 'selector']))
             conn = draw(st.integers(0, n - 1))
             fault: Optional[Dict[str, Any]] = None
